@@ -5,6 +5,7 @@ package main
 import (
 	"fmt"
 	"math"
+	"sort"
 	"time"
 
 	hydrapb "github.com/hydraide/hydraide/sdk/go/hydraidego/v3/hydraidepbgo"
@@ -223,6 +224,87 @@ func matrixCases(run *common.Run) {
 			c := runQueryCase(swamp, reqSpec{F: &hydrapb.FilterGroup{Filters: []*hydrapb.TreasureFilter{l2}}}, contents, "matrix")
 			run.Add(c.term, c.descr, c.nontrivial)
 			run.Hist("matrix_ordering")
+		}
+	}
+}
+
+// ---- request-shape grid -------------------------------------------------------------------------
+// Two swamps (distinct timestamps / heavy ties) in which a third of the records lacks each of the
+// three timestamps, queried with every combination of index x window shape x paging shape
+// (direction, filter shape, RPC and MaxResults alternate). The window shapes include one-sided
+// windows, windows that end below / start above every record, boundaries that coincide with a
+// record's timestamp, the epoch itself and a pre-epoch bound, and the empty window.
+func gridCases(run *common.Run) {
+	t0 := baseSec * 1e9
+	for sw := 0; sw < 2; sw++ {
+		swamp := fmt.Sprintf("c08/grid%d/w", sw)
+		var times []int64
+		for i := 0; i < 12; i++ {
+			tm := func(axis int) int64 {
+				if (i+axis)%3 == 0 {
+					return 0 // this record has no timestamp on that axis
+				}
+				if sw == 1 {
+					return t0 + int64((i*7+axis*3)%3)*1e9 // ties
+				}
+				return t0 + int64((i*5+axis*11)%12)*1e9 + int64(axis)
+			}
+			a := int64(1)
+			if i%4 == 3 {
+				a = 2
+			}
+			b, _ := msgpack.Marshal(map[string]interface{}{"a": a, "b": int64(i % 5)})
+			kv := &hydrapb.KeyValuePair{Key: fmt.Sprintf("g%02d", i), BytesVal: append([]byte{0xC7, 0x00}, b...)}
+			if c := tm(0); c != 0 {
+				kv.CreatedAt = ts(c)
+				times = append(times, c)
+			}
+			if u := tm(1); u != 0 {
+				kv.UpdatedAt = ts(u)
+				times = append(times, u)
+			}
+			if e := tm(2); e != 0 {
+				kv.ExpiredAt = ts(e)
+				times = append(times, e)
+			}
+			setKV(swamp, kv)
+		}
+		sort.Slice(times, func(i, j int) bool { return times[i] < times[j] })
+		tmin, tmid, tmax := times[0], times[len(times)/2], times[len(times)-1]
+		p := func(v int64) *int64 { return &v }
+		windows := [][2]*int64{{nil, nil}, {nil, p(tmid)}, {p(tmid), nil}, {p(tmin), p(tmax)}, {nil, p(tmin)}, {p(tmax), nil},
+			{p(0), nil}, {p(-1e9), p(tmid)}, {p(tmid), p(tmid)}, {nil, p(tmax + 1)}, {p(tmax + 1), nil}}
+		pagings := [][2]int32{{0, 0}, {1, 0}, {0, 3}, {2, 4}}
+		contents := observeContents(swamp)
+		idxs := []hydrapb.IndexType_Type{hydrapb.IndexType_KEY, hydrapb.IndexType_CREATION_TIME, hydrapb.IndexType_UPDATE_TIME, hydrapb.IndexType_EXPIRATION_TIME}
+		n := 0
+		for _, idx := range idxs {
+			for wi, w := range windows {
+				for pi, pg := range pagings {
+					n++
+					q := reqSpec{Idx: idx, Desc: (wi+pi+int(idx))%2 == 1, FT: w[0], TT: w[1], From: pg[0], Limit: pg[1],
+						Many: n%2 == 0, Full: n%5 == 0}
+					if n%3 == 0 {
+						q.Max = 2
+					}
+					switch n % 3 {
+					case 0: // AND: indexed leg + residual
+						pb := "b"
+						q.F = &hydrapb.FilterGroup{Filters: []*hydrapb.TreasureFilter{eqLeg("a", "", i64(1)),
+							{Operator: hydrapb.Relational_LESS_THAN, BytesFieldPath: &pb, CompareValue: &hydrapb.TreasureFilter_Int64Val{Int64Val: 4}}}}
+					case 1: // single indexed leg
+						q.F = &hydrapb.FilterGroup{Filters: []*hydrapb.TreasureFilter{eqLeg("a", "", i64(1))}}
+					default: // OR-union with a label
+						q.F = &hydrapb.FilterGroup{Logic: hydrapb.FilterLogic_OR, Filters: []*hydrapb.TreasureFilter{eqLeg("a", "two", i64(2)), eqLeg("b", "", i64(0))}}
+					}
+					c := runQueryCase(swamp, q, contents, "grid")
+					run.Add(c.term, c.descr, c.nontrivial)
+					for _, h := range c.hist {
+						run.Hist(h)
+					}
+					run.Hist("grid")
+				}
+			}
 		}
 	}
 }
